@@ -372,7 +372,7 @@ type c06Frame struct {
 }
 
 type c06Action struct {
-	kind   int // 0 send, 1 burst, 2 garbage, 3 hold, 4 release
+	kind   int // 0 send, 1 burst, 2 garbage, 3 hold, 4 release, 5 queued burst (same as burst for the model)
 	conn   int
 	frames []c06Frame
 }
@@ -403,6 +403,38 @@ func (h *c06Harness) runScript(table [][2]string, script []c06Action) [][]c06Eve
 				s.Inject(f.raw())
 			}
 			h.barrier(a.conn, s, uint32(k), mark)
+		case 5:
+			// the consumer goroutine is held inside its first answer (the harness stream blocks
+			// that Write) until the reader has queued every other frame of the burst
+			s, err := h.conn(a.conn)
+			if err != nil {
+				h.note(err.Error())
+				break
+			}
+			hit, release := s.GateNextWrite()
+			s.Inject(a.frames[0].raw())
+			select {
+			case <-hit:
+			case <-time.After(c06Deadline):
+				h.note("queued burst: the first frame was not answered")
+			}
+			for _, f := range a.frames[1:] {
+				s.Inject(f.raw())
+			}
+			if !s.WaitIdle(c06Deadline) {
+				h.note("queued burst: reader did not consume the frames")
+			}
+			s.mu.Lock()
+			s.shutWriteDelay = 500 * time.Microsecond
+			s.mu.Unlock()
+			release()
+			h.barrier(a.conn, s, uint32(k), mark)
+			if s.IsShut() {
+				// no barrier can be sent on a closed stream: give a consumer goroutine that
+				// (wrongly) keeps draining its queue the time to do so (every failing Write
+				// of this stream takes 0.5 ms)
+				time.Sleep(time.Duration(len(a.frames)+4) * time.Millisecond)
+			}
 		case 2:
 			s, err := h.conn(a.conn)
 			if err != nil {
@@ -676,7 +708,7 @@ func c06ActionTerm(a c06Action) string {
 		f := a.frames[0]
 		return fmt.Sprintf("ASend %s %s %s", hx.N(uint64(a.conn)),
 			hx.NList([]uint64{uint64(f.ty), uint64(f.svc), uint64(f.obj), uint64(f.act), uint64(f.id)}), hx.Hex(f.payload))
-	case 1:
+	case 1, 5:
 		var it []string
 		for _, f := range a.frames {
 			it = append(it, c06FrameTerm(f))
@@ -763,6 +795,20 @@ func c06Oracle(table [][2]string, script []c06Action, obs [][]c06Event) string {
 				}
 			}
 		}
+		refusedNow := map[int]int{} // 1: NotAuthenticated error seen, 2: then closed
+		for _, e := range evs {
+			if e.kind == 0 || e.kind == 1 || e.kind == 2 {
+				if refusedNow[e.conn] == 2 {
+					return fmt.Sprintf("action %d (%s): connection %d was answered NotAuthenticated and closed, but the server went on handling its frames (event kind %d: type %d service %d object %d action %d id %d)",
+						k, c06ActionDesc(a), e.conn, e.kind, e.ty, e.svc, e.obj, e.act, e.id)
+				}
+				if e.kind == 0 && e.ty == uint32(net.Error) && e.body == 1 {
+					refusedNow[e.conn] = 1
+				} else if e.kind == 1 && refusedNow[e.conn] == 1 {
+					refusedNow[e.conn] = 2
+				}
+			}
+		}
 		for _, e := range evs {
 			if e.kind == 2 && !pres[e.conn] {
 				return fmt.Sprintf("action %d (%s): service %d object %d action %d was invoked by connection %d (frame type %d) although no authenticate request with accepted credentials had been sent on it",
@@ -773,7 +819,7 @@ func c06Oracle(table [][2]string, script []c06Action, obs [][]c06Event) string {
 			}
 		}
 		// a connection that addresses another service before authenticating: error + close
-		if (a.kind == 0 || a.kind == 1) && !dead[a.conn] {
+		if (a.kind == 0 || a.kind == 1 || a.kind == 5) && !dead[a.conn] {
 			for _, f := range a.frames {
 				if !(f.ty >= 1 && f.ty <= 8) {
 					break // not a frame: the connection is closed by the reader, nothing to check here
@@ -821,12 +867,16 @@ func c06ClosedBefore(obs [][]c06Event, c int) bool {
 
 func c06ActionDesc(a c06Action) string {
 	switch a.kind {
-	case 0, 1:
+	case 0, 1, 5:
 		var d []string
 		for _, f := range a.frames {
 			d = append(d, fmt.Sprintf("%s[type %d svc %d obj %d act %d id %d payload %s]", f.desc, f.ty, f.svc, f.obj, f.act, f.id, hex.EncodeToString(f.payload)))
 		}
-		return fmt.Sprintf("conn %d send %s", a.conn, strings.Join(d, " + "))
+		how := "send"
+		if a.kind == 5 {
+			how = "send (all queued while the consumer goroutine is held in its first answer)"
+		}
+		return fmt.Sprintf("conn %d %s %s", a.conn, how, strings.Join(d, " + "))
 	case 2:
 		return fmt.Sprintf("conn %d garbage", a.conn)
 	case 3:
@@ -1020,7 +1070,7 @@ func runC06(res *hx.Result, rng *hx.Rng, tier string, outdir string) {
 				res.Dist(fmt.Sprintf("type:%d", f.ty))
 			}
 			if a.kind >= 2 {
-				res.Dist([]string{"", "", "action:garbage", "action:hold", "action:release"}[a.kind])
+				res.Dist([]string{"", "", "action:garbage", "action:hold", "action:release", "action:queued-burst"}[a.kind])
 			}
 		}
 		res.Sample(desc)
@@ -1089,6 +1139,14 @@ func c06Fixed() []c06Scenario {
 	// a refused connection stays silent whatever follows in the same write
 	out = append(out, c06Scenario{tb, []c06Action{{kind: 1, conn: 0, frames: []c06Frame{probe(net.Call, 2), fr(net.Call, 0, 0, 8, 4, good, "auth:good"), fr(net.Call, 0, 5, 0, 6, nil, "svc0-other-object"), probe(net.Call, 8)}},
 		send(0, probe(net.Call, 10))}})
+	// everything after the refused frame is already queued when the refusal happens
+	queued := []c06Frame{fr(net.Call, 0, 5, 0, 2, nil, "svc0-other-object"), probe(net.Post, 4), fr(net.Call, 0, 0, 8, 6, good, "auth:good")}
+	for i := uint32(0); i < 4; i++ {
+		queued = append(queued, fr(net.Call, 0, 5, 0, 8+2*i, nil, "svc0-other-object"))
+	}
+	queued = append(queued, probe(net.Call, 30), probe(net.Post, 32))
+	out = append(out, c06Scenario{tb, []c06Action{{kind: 5, conn: 0, frames: queued}, send(0, probe(net.Call, 40))}})
+	out = append(out, c06Scenario{tb, []c06Action{send(1, fr(net.Call, 0, 0, 8, 2, good, "auth:good")), {kind: 5, conn: 0, frames: queued}, send(1, probe(net.Call, 4))}})
 	// wrongly typed user with an authenticator that accepts the empty user
 	out = append(out, c06Scenario{[][2]string{{"", "secret"}}, []c06Action{send(0, fr(net.Call, 0, 0, 8, 2, wrongT, "auth:wrongly-typed-user")), send(0, probe(net.Call, 4))}})
 	out = append(out, c06Scenario{[][2]string{{"", ""}}, []c06Action{send(0, fr(net.Call, 0, 0, 8, 2, nil, "auth:empty")), send(0, fr(net.Call, 0, 0, 8, 4, c06U32(0), "auth:missing-both")), send(0, probe(net.Call, 6))}})
